@@ -243,6 +243,46 @@ pub fn full_world() -> World {
             vault_factory, vault, vault_lp, vault_router, epoch_manager, cw20 }
 }
 
+/// the infrastructure only: no pair, trio, vault or incentive has been created yet (registries empty)
+pub struct BaseWorld {
+    pub app: App, pub codes: Codes, pub collector: Addr, pub lair: Addr, pub distributor: Addr, pub factory: Addr, pub router: Addr,
+    pub incentive_factory: Addr, pub vault_factory: Addr, pub cw20s: Vec<Addr>,
+}
+/// `natives`: denoms registered with the pool factory (AddNativeTokenDecimals) and funded for every account; `cw20_symbols`: cw20-base tokens deployed
+pub fn base_world(natives: &[&str], cw20_symbols: &[&str]) -> BaseWorld {
+    let bank = BankKeeper::new();
+    let denoms: Vec<String> = natives.iter().map(|d| d.to_string()).collect();
+    let mut app = AppBuilder::new().with_bank(bank).build(|router, _api, storage| {
+        for a in accounts() {
+            let mut coins: Vec<Coin> = denoms.iter().filter(|d| !d.is_empty()).map(|d| coin(RICH, d.as_str())).collect();
+            if !denoms.iter().any(|d| d == "uwhale") { coins.push(coin(RICH, "uwhale")); }
+            coins.sort_by(|a, b| a.denom.cmp(&b.denom));
+            router.bank.init_balance(storage, &Addr::unchecked(a), coins).unwrap();
+        }
+    });
+    let codes = store_codes(&mut app);
+    let c = &codes;
+    let cw20s: Vec<Addr> = cw20_symbols.iter().map(|s| deploy_cw20_for(&mut app, c.cw20, s, 6)).collect();
+    let collector = inst_collector(&mut app, c, ADMIN).unwrap();
+    let lair = inst_lair(&mut app, c, ADMIN, 1_000_000_000_000, 0, vec![native("uwhale")]).unwrap();
+    let t0 = app.block_info().time.nanos();
+    let distributor = inst_distributor(&mut app, c, ADMIN, lair.as_str(), collector.as_str(), 21, DAY_NS, t0, native("uwhale")).unwrap();
+    let factory = inst_factory(&mut app, c, ADMIN, collector.as_str()).unwrap();
+    for d in natives {
+        app.execute_contract(admin(), factory.clone(), &white_whale_std::pool_network::factory::ExecuteMsg::AddNativeTokenDecimals {
+            denom: d.to_string(), decimals: 6 }, &[]).unwrap();
+    }
+    let router = app.instantiate_contract(c.router, admin(), &white_whale_std::pool_network::router::InstantiateMsg {
+        terraswap_factory: factory.to_string() }, &[], "router", Some(ADMIN.to_string())).unwrap();
+    let incentive_factory = app.instantiate_contract(c.incentive_factory, admin(), &white_whale_std::pool_network::incentive_factory::InstantiateMsg {
+        fee_collector_addr: collector.to_string(), fee_distributor_addr: distributor.to_string(),
+        create_flow_fee: Asset { info: native("uwhale"), amount: Uint128::new(1000) }, max_concurrent_flows: 5,
+        incentive_code_id: c.incentive, max_flow_epoch_buffer: 14, min_unbonding_duration: 86_400, max_unbonding_duration: 31_536_000 },
+        &[], "incentive_factory", None).unwrap();
+    let vault_factory = inst_vault_factory(&mut app, c, ADMIN, ADMIN, collector.as_str()).unwrap();
+    BaseWorld { app, codes, collector, lair, distributor, factory, router, incentive_factory, vault_factory, cw20s }
+}
+
 impl World {
     /// every contract of the world by name (for dumps and matrices)
     pub fn contracts(&self) -> Vec<(&'static str, Addr)> {
